@@ -54,6 +54,7 @@ func (m *Mutex) TryLock() bool {
 
 func (m *Mutex) Count() int {
 	// 获取state字段的值
+	verifYield(VerifSiteMutexCountLoad)
 	v := atomic.LoadInt32((*int32)(unsafe.Pointer(&m.Mutex)))
 	locked := v & mutexLocked //锁持有者的数量，0或者1 (必须在移位之前取)
 	v = v >> mutexWaiterShift //得到等待者的数值
@@ -63,18 +64,21 @@ func (m *Mutex) Count() int {
 
 // IsLocked 锁是否被持有
 func (m *Mutex) IsLocked() bool {
+	verifYield(VerifSiteMutexStateLoad)
 	state := atomic.LoadInt32((*int32)(unsafe.Pointer(&m.Mutex)))
 	return state&mutexLocked == mutexLocked
 }
 
 // IsWoken 是否有等待者被唤醒
 func (m *Mutex) IsWoken() bool {
+	verifYield(VerifSiteMutexStateLoad)
 	state := atomic.LoadInt32((*int32)(unsafe.Pointer(&m.Mutex)))
 	return state&mutexWoken == mutexWoken
 }
 
 // IsStarving 锁是否处于饥饿状态
 func (m *Mutex) IsStarving() bool {
+	verifYield(VerifSiteMutexStateLoad)
 	state := atomic.LoadInt32((*int32)(unsafe.Pointer(&m.Mutex)))
 	return state&mutexStarving == mutexStarving
 }
